@@ -100,7 +100,13 @@ var (
 	c6hi   = conv{true, 6, ip6(1, 1), ip6(1, 2), 51000, 8443}
 	c6dns  = conv{true, 17, ip6(0, 3), ip6(0, 4), 33333, 53}
 	c6icmp = conv{true, 58, ip6(0, 5), ip6(0, 6), 0, 0}
-	convs  = []conv{c4ssh, c4dns, c4icmp, c4esp, c6web, c6hi, c6dns, c6icmp}
+	// client port below the server port on non-common ports (IsProbablyReverse() true for the forward hash),
+	// multicast / broadcast UDP with sport < dport: the second lookup of the probably-reverse fast path
+	c6low  = conv{true, 6, ip6(2, 1), ip6(2, 2), 40000, 50000}
+	c4low  = conv{false, 6, ip4(10, 0, 2, 1), ip4(10, 0, 2, 2), 1024, 3306}
+	c6dhcp = conv{true, 17, ip6(2, 7), []byte{0xff, 2, 0, 0, 0, 0, 0, 0, 0, 0, 0, 0, 0, 1, 0, 2}, 546, 547}
+	c4bc   = conv{false, 17, ip4(10, 0, 2, 7), ip4(255, 255, 255, 255), 137, 138}
+	convs  = []conv{c4ssh, c4dns, c4icmp, c4esp, c6web, c6hi, c6dns, c6icmp, c6low, c4low, c6dhcp, c4bc}
 )
 
 func hx(b []byte) string { return hex.EncodeToString(b) }
@@ -138,8 +144,8 @@ const big = 1 << 20
 // hand-picked boundary schedules
 func fixedCases() []input {
 	var out []input
-	web := mkPkt(c6web, false, 0x10, 0, c6web.cport)    // 2000::1 -> 2000::2 tcp/80, ACK
-	webR := mkPkt(c6web, true, 0x10, 0, c6web.cport)    // the reply direction
+	web := mkPkt(c6web, false, 0x10, 0, c6web.cport) // 2000::1 -> 2000::2 tcp/80, ACK
+	webR := mkPkt(c6web, true, 0x10, 0, c6web.cport) // the reply direction
 	ssh := mkPkt(c4ssh, false, 0x10, 0, c4ssh.cport)
 	sshR := mkPkt(c4ssh, true, 0x18, 0, c4ssh.cport)
 	for _, w := range []string{"status", "writeout", "query"} {
@@ -185,6 +191,11 @@ func fixedCases() []input {
 	// source-port aggregation: two client ports to the same server inside a window, then a write-out
 	out = append(out, newBuilder(128, big).lock("query", 0).pkt(mkPkt(c6hi, false, 0x10, 0, 51000), 0, 10).pkt(mkPkt(c6hi, false, 0x10, 0, 51001), 0, 20).
 		pkt(mkPkt(c6hi, true, 0x10, 0, 51000), 4, 30).unlock().lock("writeout", 0).unlock().in)
+	// same-direction repeats of a flow whose forward hash has sport < dport, before / inside / after a pause
+	low := mkPkt(c6low, false, 0x02, 0, c6low.cport)
+	dh := mkPkt(c6dhcp, false, 0, 0, c6dhcp.cport)
+	out = append(out, newBuilder(128, big).pkt(low, 4, 60).lock("writeout", 1).pkt(low, 4, 60).pkt(mkPkt(c6low, false, 0x10, 0, c6low.cport), 4, 52).unlock().pkt(low, 4, 61).
+		pkt(dh, 4, 100).lock("status", 0).pkt(dh, 4, 101).pkt(dh, 4, 102).unlock().pkt(dh, 4, 103).lock("query", 0).unlock().in)
 	return out
 }
 
@@ -207,12 +218,17 @@ func gen(r *vhlib.Rand, i int, o vhlib.Opts) any {
 	for k := range cs {
 		cs[k] = vhlib.Pick(r, convs)
 		if r.Chance(60) { // bias to IPv6
-			cs[k] = vhlib.Pick(r, []conv{c6web, c6hi, c6dns, c6icmp})
+			cs[k] = vhlib.Pick(r, []conv{c6web, c6hi, c6dns, c6icmp, c6low, c6low, c6dhcp})
 		}
 	}
+	lastC, lastRev := -1, false
 	onePkt := func() {
-		c := vhlib.Pick(r, cs)
-		rev := r.Bool()
+		ci, rev := r.Intn(len(cs)), r.Bool()
+		if lastC >= 0 && r.Chance(40) {
+			ci, rev = lastC, lastRev // another packet of the same conversation in the same direction
+		}
+		lastC, lastRev = ci, rev
+		c := cs[ci]
 		flags := vhlib.Pick(r, []byte{0x10, 0x18, 0x02, 0x12, 0x11, 0x00})
 		var ity byte
 		if c.proto == 1 {
@@ -377,8 +393,8 @@ func coqObs(r *vsrc.Result, in input) string {
 	for i, l := range r.Lost {
 		lost[i] = vhlib.CoqNat(in.Evs[l].I)
 	}
-	return fmt.Sprintf("(mk_obs %s %s %d %d %s %s %s %s %s %s)", coqFlows(r.V4), coqFlows(r.V6), r.Processed, r.ProcessedTotal,
-		coqInts(r.Errs), vhlib.CoqList(st), coqAggs(r.Written), coqAggs(r.Queries), vhlib.CoqList(lost), vhlib.CoqNat(r.Overflows))
+	return fmt.Sprintf("(mk_obs %s %s %d %d %s %s %s %s %s %s %s)", coqFlows(r.V4), coqFlows(r.V6), r.Processed, r.ProcessedTotal,
+		coqInts(r.Errs), vhlib.CoqList(st), coqAggs(r.Written), coqAggs(r.Queries), vhlib.CoqList(lost), vhlib.CoqNat(r.Overflows), vhlib.CoqNat(r.Stalled))
 }
 
 // model-side event list: the actions of a window happen after its AP-th packet
@@ -487,15 +503,17 @@ func run(raw json.RawMessage, o vhlib.Opts) (*vhlib.Case, error) {
 	if in.Limit < big {
 		tags["small-limit"] = true
 	}
-	if res.Errs[0]+res.Errs[2] > 0 || len(res.Statuses) > 0 && func() bool {
-		for _, s := range res.Statuses {
-			if s.Errs[0]+s.Errs[2] > 0 {
-				return true
-			}
-		}
-		return false
-	}() {
+	parseErr := func(e []int) bool { return len(e) == 3 && e[0]+e[2] > 0 }
+	if parseErr(res.Errs) {
 		tags["parse-errors"] = true
+	}
+	for _, s := range res.Statuses {
+		if parseErr(s.Errs) {
+			tags["parse-errors"] = true
+		}
+	}
+	if res.Stalled > 0 || ref.Stalled > 0 {
+		tags["stalled"] = true
 	}
 	if nIn == 0 {
 		tags["no-packet-in-window"] = true
